@@ -21,6 +21,8 @@ type propRunner struct {
 
 var registry = map[string]*propRunner{}
 
+var globalOverlay map[string][]byte
+
 func register(id string, meta propMeta, run func(c *Check)) {
 	registry[id] = &propRunner{meta: meta, run: run}
 }
@@ -35,6 +37,7 @@ func main() {
 		inl      = flag.Int("inline", 0, "debug: inline depth for -dump")
 		list     = flag.Bool("list", false, "debug: list repository functions")
 		explain  = flag.String("explain", "", "print a violations file in readable form")
+		overlayF = flag.String("overlay", "", "JSON file mapping source paths to replacement files (mutant self-test)")
 		metaDump = flag.Bool("meta", false, "print the registered properties and their descriptions as JSON")
 		region   = flag.Int("region", -1, "debug: start -dump at this block index")
 		maxp     = flag.Int("maxp", 12, "debug: max paths printed by -dump")
@@ -107,6 +110,24 @@ func main() {
 		return
 	}
 
+	if *overlayF != "" {
+		b, err := os.ReadFile(*overlayF)
+		if err != nil {
+			fmt.Fprintln(os.Stderr, err)
+			os.Exit(2)
+		}
+		mp := map[string]string{}
+		_ = json.Unmarshal(b, &mp)
+		globalOverlay = map[string][]byte{}
+		for k, v := range mp {
+			c, err := os.ReadFile(v)
+			if err != nil {
+				fmt.Fprintln(os.Stderr, err)
+				os.Exit(2)
+			}
+			globalOverlay[k] = c
+		}
+	}
 	var ids []string
 	if *prop == "all" {
 		for id := range registry {
@@ -126,7 +147,7 @@ func main() {
 	var shared *Program
 	var loadErr error
 	if len(ids) > 1 {
-		shared, loadErr = Load(*repo, nil)
+		shared, loadErr = Load(*repo, globalOverlay)
 	}
 	for _, id := range ids {
 		if rc := runProp(id, *tier, *repo, *verifDir, registry[id], shared, loadErr); rc != 0 {
@@ -139,7 +160,7 @@ func main() {
 func runProp(prop, tier, repo, verifDir string, r *propRunner, shared *Program, sharedErr error) (code int) {
 	p, err := shared, sharedErr
 	if p == nil && err == nil {
-		p, err = Load(repo, nil)
+		p, err = Load(repo, globalOverlay)
 	}
 	var c *Check
 	if err != nil {
